@@ -45,9 +45,13 @@ Sub(p, q) == Add(p, Neg(q))
 SDiff(a, b) == (a \ b) \cup (b \ a)
 \* product with a monomial-combination rule comb (union or symmetric difference)
 MulWith(p, q, comb(_, _)) ==
-    LET ms == {comb(a, b) : a \in DOMAIN p, b \in DOMAIN q}
-    IN Norm(ms, LAMBDA m : SumOver({ab \in (DOMAIN p) \X (DOMAIN q) : comb(ab[1], ab[2]) = m},
-                                    LAMBDA ab : p[ab[1]] * q[ab[2]]))
+    LET pp == TLCEval(p)      \* force the operands: the fold below is evaluated natively and must not re-enter them lazily
+        qq == TLCEval(q)
+        pairs == (DOMAIN pp) \X (DOMAIN qq)
+        ms == {comb(ab[1], ab[2]) : ab \in pairs}
+        \* accumulate pair by pair (FoldSet is evaluated natively by TLC; a per-monomial filter over all pairs is cubic)
+        acc == FoldSet(LAMBDA ab, f : [f EXCEPT ![comb(ab[1], ab[2])] = @ + pp[ab[1]] * qq[ab[2]]], [m \in ms |-> 0], pairs)
+    IN Norm(ms, LAMBDA m : acc[m])
 MulB(p, q) == MulWith(p, q, LAMBDA a, b : a \cup b)
 MulS(p, q) == MulWith(p, q, SDiff)
 Mul(spin, p, q) == IF spin THEN MulS(p, q) ELSE MulB(p, q)
